@@ -448,6 +448,7 @@ import mir_jobs_subintent    # noqa: E402,F401  (registers the subintent structu
 import mir_jobs_account    # noqa: E402,F401  (registers the account deposit jobs)
 import mir_jobs_addr    # noqa: E402,F401  (registers the address codec jobs)
 import mir_jobs_worktop    # noqa: E402,F401  (registers the worktop jobs)
+import mir_jobs_pool    # noqa: E402,F401  (registers the pool contribution jobs)
 
 
 def _index():
